@@ -43,6 +43,8 @@ struct SessionSpec {
     control_err: Option<(u32, UsbErr)>,
     clear_halt_err: Option<(u32, UsbErr)>,
     release_err: Option<UsbErr>,
+    /// Maximum Device Response Time the device advertises (ms)
+    resp_ms: u32,
 }
 
 /* ---------- (de)serialisation of faults and sessions for replay files ---------- */
@@ -50,6 +52,7 @@ struct SessionSpec {
 fn fault_str(f: &Fault) -> String {
     match f {
         Fault::SendErr(e) => format!("SendErr:{}", e.name()),
+        Fault::SendErrDelivered(e) => format!("SendErrDelivered:{}", e.name()),
         Fault::RecvErr { nth, err } => format!("RecvErr:{nth}:{}", err.name()),
         Fault::Pendings(n) => format!("Pendings:{n}"),
         Fault::Truncate(n) => format!("Truncate:{n}"),
@@ -75,6 +78,7 @@ fn fault_parse(s: &str) -> Fault {
     let num = |x: &str| x.parse::<u64>().unwrap();
     match head {
         "SendErr" => Fault::SendErr(UsbErr::from_name(rest).unwrap()),
+        "SendErrDelivered" => Fault::SendErrDelivered(UsbErr::from_name(rest).unwrap()),
         "RecvErr" => {
             let (a, b) = rest.split_once(':').unwrap();
             Fault::RecvErr { nth: num(a) as u32, err: UsbErr::from_name(b).unwrap() }
@@ -154,6 +158,7 @@ fn spec_json(s: &SessionSpec) -> Value {
         "faults": s.faults.iter().map(|(i, f)| json!([i, fault_str(f)])).collect::<Vec<_>>(),
         "claim_err": s.claim_err.map(|e| e.name()), "control_err": err_json(&s.control_err),
         "clear_halt_err": err_json(&s.clear_halt_err), "release_err": s.release_err.map(|e| e.name()),
+        "resp_ms": s.resp_ms,
     })
 }
 
@@ -171,6 +176,7 @@ fn spec_from(v: &Value) -> SessionSpec {
         control_err: err_from(&v["control_err"]),
         clear_halt_err: err_from(&v["clear_halt_err"]),
         release_err: name("release_err"),
+        resp_ms: v["resp_ms"].as_u64().unwrap_or(1) as u32,
     }
 }
 
@@ -263,7 +269,7 @@ fn sane_limits(s: &SessionSpec) -> bool {
 
 fn run_session(rep: &mut Report, spec: &SessionSpec, label: &str) {
     *CURRENT.lock().unwrap() = spec_json(spec).to_string();
-    let boot = Bootstrap { max_cmd: spec.adv_cmd, max_ack: spec.adv_ack, ..Bootstrap::default() };
+    let boot = Bootstrap { max_cmd: spec.adv_cmd, max_ack: spec.adv_ack, response_time_ms: spec.resp_ms, ..Bootstrap::default() };
     let mut mem = SparseMem::new(spec.seed);
     boot.install(&mut mem);
     let mut cfg = DevCfg { pending_plan: spec.plan.clone(), ..DevCfg::default() };
@@ -326,10 +332,23 @@ fn run_session(rep: &mut Report, spec: &SessionSpec, label: &str) {
             let idx = usb.lock().txn;
             let k = if spec.plan.is_empty() { 0 } else { spec.plan[(idx % spec.plan.len() as u64) as usize] } as usize;
             settle = Some(clean && unf.len() + k < spec.retry as usize);
-            op = Op::Read { addr: 0x7300, n: 4 };
+            // same size as the oldest stale ReadMem acknowledge (if any): should the host take that
+            // acknowledge for the answer to THIS read, it passes the length check and the `inexact`
+            // oracle sees foreign data
+            let n = match decode_ack(&unf[0]) {
+                Some(a) if a.kind == ACK_READ_MEM && a.scd_len >= 1 && a.scd_len <= 1024 => a.scd_len as usize,
+                _ => 4,
+            };
+            op = Op::Read { addr: 0x7300, n };
         }
+        // a queued packet that already carries the id of an UPCOMING command was forged by the
+        // hostile phase: the op that meets it is hit by that fault (no host can tell it from the
+        // real answer: right id, kind and size, received after the command was sent)
+        let forged_ahead = usb.lock().unfetched().iter().any(|p| {
+            decode_ack(p).is_some_and(|a| last_sent_id.is_some_and(|l| a.request_id.wrapping_sub(l).wrapping_sub(1) < 16))
+        });
         let txn0 = usb.lock().txn;
-        let timeout_before = dur_ms(h.timeout_duration());
+        let timeout_before = dur_ms(h.timeout_duration()).max(1); // transfer_timeout(): never 0
         let started = std::time::Instant::now();
         let (name, req, r): (&str, String, Result<Result<Option<Vec<u8>>, &'static str>, ()>) = match &op {
             Op::Open => ("open", "c07 open".into(), guarded(|| h.open().map(|_| None).map_err(|e| control_error_name(&e)))),
@@ -351,6 +370,7 @@ fn run_session(rep: &mut Report, spec: &SessionSpec, label: &str) {
         let _ = usb.lock().take_access();
         let txn1 = usb.lock().txn;
         let runaway = std::mem::take(&mut usb.lock().runaway);
+        let host_blocked = std::mem::take(&mut usb.lock().host_blocked);
         let txns = split_txns(&wire);
         for w in &wire {
             if let Wire::Recv { buf_len, .. } = w {
@@ -362,7 +382,15 @@ fn run_session(rep: &mut Report, spec: &SessionSpec, label: &str) {
                 }
             }
         }
-        opened = h.is_opened();
+        // the harness's own account of the channel state (never the implementation's):
+        // open Ok => open; close Ok => closed; a failed open leaves it closed (the fixed code
+        // closes again; if the release itself failed the next open is a no-op, also fine)
+        match (&op, &r) {
+            (Op::Open, Ok(Ok(_))) => opened = true,
+            (Op::Open, _) => opened = opened && h.is_opened(),
+            (Op::Close, Ok(Ok(_))) => opened = false,
+            _ => {}
+        }
         let ans = match &r {
             Err(()) => "panic".to_string(),
             Ok(Err(e)) => format!("err {e}"),
@@ -389,6 +417,9 @@ fn run_session(rep: &mut Report, spec: &SessionSpec, label: &str) {
         if r.is_err() {
             violate(rep, "panic", name, format!("{name} panicked"));
         }
+        if host_blocked {
+            violate(rep, "unbounded-loop", name, format!("{name}: a bulk-in transfer was started with a timeout of 0 ms (unlimited for libusb) while the device had nothing to deliver: the call would never return"));
+        }
         if runaway {
             violate(rep, "unbounded-loop", name, format!("{name}: more than {RUNAWAY_RECVS} receives for one command"));
         }
@@ -398,7 +429,7 @@ fn run_session(rep: &mut Report, spec: &SessionSpec, label: &str) {
                 break;
             }
         }
-        let faulted_here = spec.faults.iter().any(|(j, _)| *j >= txn0 && *j < txn1.max(txn0 + 1)) && !recovering
+        let faulted_here = forged_ahead || spec.faults.iter().any(|(j, _)| *j >= txn0 && *j < txn1.max(txn0 + 1)) && !recovering
             || (matches!(op, Op::Open) && open_faulted && !recovering)
             || (matches!(op, Op::Close) && spec.release_err.is_some() && !recovering);
         match (&op, &r) {
@@ -471,6 +502,9 @@ fn run_session(rep: &mut Report, spec: &SessionSpec, label: &str) {
             Op::Read { addr, n } | Op::Write { addr, n, .. } => (*addr as u128) + (*n as u128) <= 1u128 << 64,
             _ => true,
         };
+        if opened && matches!(r, Ok(Err("NotOpened"))) {
+            violate(rep, "not-usable-after-error", name, format!("{name} returned NotOpened although the last open succeeded and close was not called"));
+        }
         let expect_ok = !faulted_here && !tainted && in_space && sane_limits(spec) && (opened || matches!(op, Op::Open | Op::Close))
             && settle != Some(false);
         if settle.is_some() {
@@ -556,7 +590,10 @@ fn main() {
     let base_ops = |a: u64| vec![
         Op::Open,
         Op::Read { addr: 0x5000 + a, n: 100 },
+        Op::Read { addr: 0x5800 + a, n: 100 },
         Op::Write { addr: 0x6000 + a, n: 100, pat: 1 },
+        Op::Write { addr: 0x6800 + a, n: 100, pat: 9 },
+        Op::Read { addr: 0x6800 + a, n: 100 },
         Op::Read { addr: 0x6000 + a, n: 8 },
         Op::Close,
         Op::Open,
@@ -572,7 +609,7 @@ fn main() {
     // number of transactions of a fault-free run of each scenario
     let mut txn_counts = vec![];
     for (mc, ma, retry, plan, ops) in &scenarios {
-        let spec = SessionSpec { seed: 3, adv_cmd: *mc, adv_ack: *ma, retry: *retry, plan: plan.clone(), ops: ops.clone(), faults: vec![], claim_err: None, control_err: None, clear_halt_err: None, release_err: None };
+        let spec = SessionSpec { seed: 3, adv_cmd: *mc, adv_ack: *ma, retry: *retry, plan: plan.clone(), ops: ops.clone(), faults: vec![], claim_err: None, control_err: None, clear_halt_err: None, release_err: None, resp_ms: 1 };
         let before = rep.n_violations;
         run_session(&mut rep, &spec, "fault-free");
         let _ = before;
@@ -634,6 +671,9 @@ fn main() {
     }
     for e in UsbErr::ALL {
         faults.push(Fault::SendErr(e));
+        if matches!(e, UsbErr::Io | UsbErr::Timeout | UsbErr::Pipe | UsbErr::Other) {
+            faults.push(Fault::SendErrDelivered(e));
+        }
         faults.push(Fault::RecvErr { nth: 0, err: e });
         faults.push(Fault::RecvErr { nth: 1, err: e });
     }
@@ -651,7 +691,7 @@ fn main() {
                 // pendings that need pending acks only make sense with a pending-capable retry
                 let spec = SessionSpec {
                     seed: 3, adv_cmd: *mc, adv_ack: *ma, retry: *retry, plan: plan.clone(), ops: ops.clone(),
-                    faults: vec![(idx, f.clone())], claim_err: None, control_err: None, clear_halt_err: None, release_err: None,
+                    faults: vec![(idx, f.clone())], claim_err: None, control_err: None, clear_halt_err: None, release_err: None, resp_ms: 1,
                 };
                 run_session(&mut rep, &spec, "single");
                 rep.count(&format!("fault:{}", fault_class(f)));
@@ -663,13 +703,30 @@ fn main() {
     }
     rep.flush_model(&args.camdrv);
 
+    // degenerate Maximum Device Response Time: 0 ms (a zero timeout is UNLIMITED for libusb: a
+    // lost acknowledge must not hang the host) and u32::MAX ms, with the faults that leave the
+    // host waiting, at every transaction index of the first history
+    for resp in [0u32, u32::MAX] {
+        let (mc, ma, retry, plan, ops) = &scenarios[0];
+        let waiting: Vec<Fault> = vec![Fault::NoAck, Fault::LateAck, Fault::Pendings(3), Fault::Pendings(u64::MAX), Fault::RecvErr { nth: 0, err: UsbErr::Timeout },
+            Fault::Truncate(0), Fault::Status(0x8001), Fault::ReqIdDelta(1), Fault::SendErr(UsbErr::Timeout), Fault::SendErrDelivered(UsbErr::Timeout), Fault::Raw(vec![])];
+        for idx in 0..txn_counts[0] {
+            for f in &waiting {
+                let spec = SessionSpec { seed: 3, adv_cmd: *mc, adv_ack: *ma, retry: *retry, plan: plan.clone(), ops: ops.clone(),
+                    faults: vec![(idx, f.clone())], claim_err: None, control_err: None, clear_halt_err: None, release_err: None, resp_ms: resp };
+                run_session(&mut rep, &spec, "degenerate-response-time");
+            }
+        }
+    }
+    rep.flush_model(&args.camdrv);
+
     // thorough: all 65536 status codes on one read transaction and one write transaction
     if thorough {
         for code in 0..=0xFFFFu32 {
-            for idx in [6u64, 8] {
+            for idx in [6u64, 10] {
                 let (mc, ma, retry, plan, ops) = &scenarios[0];
-                let spec = SessionSpec { seed: 3, adv_cmd: *mc, adv_ack: *ma, retry: *retry, plan: plan.clone(), ops: ops[..3].to_vec(),
-                    faults: vec![(idx, Fault::Status(code as u16))], claim_err: None, control_err: None, clear_halt_err: None, release_err: None };
+                let spec = SessionSpec { seed: 3, adv_cmd: *mc, adv_ack: *ma, retry: *retry, plan: plan.clone(), ops: ops[..4].to_vec(),
+                    faults: vec![(idx, Fault::Status(code as u16))], claim_err: None, control_err: None, clear_halt_err: None, release_err: None, resp_ms: 1 };
                 run_session(&mut rep, &spec, "all-status-codes");
             }
             if code % 4096 == 4095 {
@@ -689,7 +746,7 @@ fn main() {
         let spec = SessionSpec {
             seed: rng.below(200), adv_cmd: *mc, adv_ack: *ma, retry: *retry, plan: plan.clone(), ops: ops.clone(),
             faults: vec![(i1, rng.pick(&faults).clone()), (i2, rng.pick(&faults).clone())],
-            claim_err: None, control_err: None, clear_halt_err: None, release_err: None,
+            claim_err: None, control_err: None, clear_halt_err: None, release_err: None, resp_ms: 1,
         };
         run_session(&mut rep, &spec, "double");
     }
@@ -698,7 +755,7 @@ fn main() {
     // open-path transport errors: claim / set_halt (2 control requests) / clear_halt (2) / release
     for e in UsbErr::ALL {
         let (mc, ma, retry, plan, ops) = &scenarios[0];
-        let base = SessionSpec { seed: 3, adv_cmd: *mc, adv_ack: *ma, retry: *retry, plan: plan.clone(), ops: ops.clone(), faults: vec![], claim_err: None, control_err: None, clear_halt_err: None, release_err: None };
+        let base = SessionSpec { seed: 3, adv_cmd: *mc, adv_ack: *ma, retry: *retry, plan: plan.clone(), ops: ops.clone(), faults: vec![], claim_err: None, control_err: None, clear_halt_err: None, release_err: None, resp_ms: 1 };
         run_session(&mut rep, &SessionSpec { claim_err: Some(e), ..base.clone() }, "open-path");
         for n in 0..4 {
             run_session(&mut rep, &SessionSpec { control_err: Some((n, e)), ..base.clone() }, "open-path");
@@ -723,18 +780,20 @@ fn main() {
                 Op::Write { addr: u64::MAX, n: 1, pat: 1 },
                 Op::Read { addr: u64::MAX, n: 0 },
             ];
-            for retry in [0u16, 1, 3] {
-                let spec = SessionSpec { seed: 5, adv_cmd: *mc, adv_ack: *ma, retry, plan: vec![], ops: ops.clone(), faults: vec![], claim_err: None, control_err: None, clear_halt_err: None, release_err: None };
+            for (ri, retry) in [0u16, 1, 3].into_iter().enumerate() {
+                // the advertised response time rotates through 1, 0 and u32::MAX ms
+                let resp_ms = [1u32, 0, u32::MAX][(ri + (*mc as usize % 3) + (*ma as usize % 2)) % 3];
+                let spec = SessionSpec { seed: 5, adv_cmd: *mc, adv_ack: *ma, retry, plan: vec![], ops: ops.clone(), faults: vec![], claim_err: None, control_err: None, clear_halt_err: None, release_err: None, resp_ms };
                 run_session(&mut rep, &spec, "degenerate-limits");
             }
         }
     }
     // ops on a handle that was never opened, large write with a failing chunk in the second block
     {
-        let spec = SessionSpec { seed: 5, adv_cmd: 64, adv_ack: 64, retry: 3, plan: vec![], ops: vec![Op::Read { addr: 0, n: 4 }, Op::Write { addr: 0, n: 4, pat: 0 }, Op::Close], faults: vec![], claim_err: None, control_err: None, clear_halt_err: None, release_err: None };
+        let spec = SessionSpec { seed: 5, adv_cmd: 64, adv_ack: 64, retry: 3, plan: vec![], ops: vec![Op::Read { addr: 0, n: 4 }, Op::Write { addr: 0, n: 4, pat: 0 }, Op::Close], faults: vec![], claim_err: None, control_err: None, clear_halt_err: None, release_err: None, resp_ms: 1 };
         run_session(&mut rep, &spec, "not-opened");
         let spec = SessionSpec { seed: 5, adv_cmd: 70_000, adv_ack: 70_000, retry: 3, plan: vec![], ops: vec![Op::Open, Op::Write { addr: 0x10_0000, n: 140_000, pat: 0 }, Op::Read { addr: 0x10_0000, n: 140_000 }],
-            faults: vec![(7, Fault::WrittenLen(7)), (10, Fault::PayloadResize(9000))], claim_err: None, control_err: None, clear_halt_err: None, release_err: None };
+            faults: vec![(7, Fault::WrittenLen(7)), (10, Fault::PayloadResize(9000))], claim_err: None, control_err: None, clear_halt_err: None, release_err: None, resp_ms: 1 };
         run_session(&mut rep, &spec, "large");
     }
     rep.write(&args);
